@@ -129,7 +129,7 @@ def run(fast=False):
             ok = False
         import json
         os.makedirs(os.path.join(ROOT, 'out'), exist_ok=True)
-        with open(os.path.join(os.environ.get('VERIF_OUTDIR', os.path.join(ROOT, 'out')), 'xcheck.json'), 'w') as fh:
+        with open(os.path.join(ROOT, 'out', 'xcheck.json'), 'w') as fh:
             json.dump(xr, fh, indent=1)
     finally:
         solve.close()
